@@ -41,6 +41,9 @@ func zzEligibleWorld(prop string) {
 	case "or-name-in":
 		tpl.fieldShape = "or-name-in"
 	}
+	if tpl.affinityOp == "" && tpl.fieldShape == "" {
+		tpl.noRequired = zzPickNoRequired()
+	}
 	// the taint of node0 may be tolerated — by the only toleration of its key, or by the second of two
 	switch nondet.String("tpl.tolerates", "", "k", "k-second") {
 	case "k":
